@@ -75,7 +75,20 @@ def load_die(emb, mregs, dw, dh):
     form = int(hashlib.sha1(repr((emb.name, mregs, dw, dh)).encode()).hexdigest(), 16) % 10
     tmpdir = None
     try:
+        # one attached netlist in four reaches its state through the API rather than being loaded in it: the fixed modules
+        # are loaded somewhere else and moved to their place with assign_rectangles, and an extra fixed module is declared
+        # and released (is_fixed = False) before the die is built -- the die must see the netlist as it is NOW
+        hist = ndict is not None and (form * 7 + len(mregs)) % 4 == 0
+        if hist:
+            target = {name: [list(r) for r in m["rectangles"]] for name, m in ndict["Modules"].items()}
+            for name, m in ndict["Modules"].items():
+                m["rectangles"] = [[r[0] + 2 * r[2], r[1] + r[3], r[2], r[3]] for r in m["rectangles"]]
+            first = next(iter(target.values()))[0]
+            ndict["Modules"]["Fx"] = {"fixed": True, "rectangles": [[first[0] + first[2], first[1], first[2], first[3]]]}
         net = Netlist(ndict) if ndict is not None else None
+        if hist:
+            net.assign_rectangles(target)
+            net.get_module("Fx").is_fixed = False
         if form <= 4:
             arg = ddict
         elif form == 9 and "regions" not in ddict:
